@@ -29,6 +29,15 @@ Proof.
   destruct (Nat.eqb u t); cbn [map snd]; rewrite IH; reflexivity.
 Qed.
 
+(* a source that fails single reads (transient I/O errors), armed before any calls one likes: a call that meets such a failure answers Err, every
+   other call answers exactly as the specification says - a failed read leaves no trace in the cache *)
+Theorem C13_failed_reads_leave_no_trace :
+  forall (chunk maxlen : N) (file : N -> N) (flen : N) (evs : list (bool * op)),
+    0 < chunk ->
+    Forall2 (fun ev r => (snd r = true -> fst r = Err) /\ (snd r = false -> fst r = spec maxlen file flen (snd ev)))
+            evs (run_f chunk maxlen file flen init false evs).
+Proof. intros chunk maxlen file flen evs Hc. apply (run_f_spec chunk maxlen file flen Hc evs init false). apply Inv_init. Qed.
+
 (* the constants the code uses today *)
 Theorem C13_constants : 0 < c_chunk_size /\ 0 < c_max_len_incl_delim.
 Proof. split; vm_compute; reflexivity. Qed.
@@ -68,6 +77,7 @@ Qed.
 
 Print Assumptions C13_run_is_spec.
 Print Assumptions C13_schedule_independent.
+Print Assumptions C13_failed_reads_leave_no_trace.
 Print Assumptions C13_constants.
 Print Assumptions C13_read_exact.
 Print Assumptions C13_in_bounds_succeeds.
@@ -79,4 +89,11 @@ Example ex_run :
   let file := fun i => if i =? 50 then 0 else 1 + i mod 7 in
   run 10 4096 file 100 init [ReadAt 27 4; ReadAt 27 8; ReadUntil 45 100 0; ReadUntil 45 48 0; ReadUntil 45 45 0; ReadAt 95 6]
   = [Ok 27 4; Ok 27 8; Ok 45 5; Err; Err; Err].
+Proof. vm_compute. reflexivity. Qed.
+
+(* non-vacuity: the second call meets the armed failure (it has to read chunk 1) and fails; the retry and the cached read answer as specified *)
+Example ex_run_f :
+  let file := fun i => 1 + i mod 7 in
+  run_f 10 4096 file 100 init false [(false, ReadAt 2 4); (true, ReadAt 27 4); (false, ReadAt 27 4); (true, ReadAt 3 2); (false, ReadInto 90 5)]
+  = [(Ok 2 4, false); (Err, true); (Ok 27 4, false); (Ok 3 2, false); (Err, true)].
 Proof. vm_compute. reflexivity. Qed.
